@@ -1,6 +1,7 @@
 package main
 
 import (
+	"crypto/sha1"
 	"math/big"
 	"encoding/json"
 	"fmt"
@@ -386,6 +387,8 @@ func loadAll(ws *Workspace, tier string) (*Loaded, error) {
 	return ld, nil
 }
 
+var keepScripts = os.Getenv("GOSMT_DUMPALL") != ""
+
 // ---- obligation pool ----
 
 type Pool struct {
@@ -481,6 +484,13 @@ func (p *Pool) worker() {
 		}
 		ob.Result, ob.Model = final.res, final.model
 		ob.Solver = final.who.kind.Name
+		if final.res == "unsat" && !keepScripts {
+			// free the script text of discharged obligations (only its hash is needed later)
+			h := sha1.Sum([]byte(ob.Script))
+			ob.ScriptHash = fmt.Sprintf("%x", h[:8])
+			ob.Script, ob.Script2 = "", ""
+			ob.Vars, ob.Vars2 = nil, nil
+		}
 		ob.Ms = time.Since(t0).Milliseconds()
 		ob.done <- struct{}{}
 	}
